@@ -973,6 +973,8 @@ def frame_corpus(ctx, k=1, big=False):
     base += inputs.historical(seed, k=1) + inputs.internal_samples(seed, k=1)
     # node ids not in time order (tsinfer / SLiM / subset() style numbering); added after seed C04-a
     base += [inputs.renumbered(c, seed) for c in inputs.contemporaneous(seed + 1, k=1, small=True)]
+    # mutations above local roots lie on no edge (added after second seed C02-b)
+    base += [inputs.with_root_mutations(c, 3, seed) for c in inputs.contemporaneous(seed + 2, k=1, small=True)]
     out = []
     for i, inp in enumerate(base):
         if i % 2 == 0 or not ctx.quick:
